@@ -2,7 +2,11 @@
 //! NaijaScript program using the process built-ins, a host policy with the chosen capture cap
 //! and poll interval, the chosen timeout.  One case per input line:
 //!
-//!   <id> <pin> <p1> <p2> <cap> <timeout_ms> <poll_ms> <n1> <k1> <n2> <k2> <actions,comma,separated>
+//!   <id> <pin> <p1> <p2> <cap> <timeout_ms> <poll_ms> <n1> <k1> <n2> <k2> <actions,comma,separated> [<place> <churn>]
+//!
+//! place / churn: where in the script run() is evaluated and how the result travels (top level, returned
+//! from a function directly or through a local, inside an array, through nested calls, from a loop ...) and
+//! what allocates before the fields are read (see build_script).  The streams are read twice.
 //!
 //! pin = 1 pins this thread (hence the reader threads and the child, which inherit the mask) to
 //! one CPU for the duration of the run, which makes coarse interleavings (child writes and exits
@@ -17,6 +21,7 @@
 use std::env;
 use std::fmt::Write as _;
 use std::fs;
+use std::io::Write as _;
 use std::panic;
 use std::process::ExitCode;
 use std::time::Instant;
@@ -64,6 +69,16 @@ fn pattern_byte(stream: u8, n: usize, kind: u8, i: usize) -> u8 {
         b'B' => {
             if i + 1 == n {
                 0xFF
+            } else {
+                base + (i % 26) as u8
+            }
+        }
+        // ends inside a multi-byte character (E2 82 without its third byte)
+        b'T' => {
+            if i + 2 == n || (n == 1 && i == 0) {
+                0xE2
+            } else if i + 1 == n {
+                0x82
             } else {
                 base + (i % 26) as u8
             }
@@ -190,6 +205,142 @@ fn with_pin<R>(pin: bool, f: impl FnOnce() -> R) -> R {
     }
 }
 
+fn same_bytes(a: &Obs, b: &Obs) -> bool {
+    match (a, b) {
+        (Obs::Str(x), Obs::Str(y)) => x == y,
+        (Obs::Null, Obs::Null) => true,
+        _ => false,
+    }
+}
+
+fn indent(s: &str) -> String {
+    s.lines().map(|l| format!("    {l}\n")).collect()
+}
+
+/// The NaijaScript program.  `place` says where run() is evaluated and how its result reaches
+/// the variable `res` (or the field array `f`); `churn` says what allocates between obtaining
+/// the result and reading its fields.  Output order: success, exit_code, stdout, stderr, then
+/// (after more allocation) stdout and stderr again, then the second child's stdout if any.
+fn build_script(build: &str, build2: &str, place: &str, churn: &str, size: usize) -> String {
+    let mut s = String::new();
+    s.push_str(
+        "do pad(n) start\n    make s get \"\"\n    make i get 0\n    jasi (i small pass n) start\n        s get s add \"x\"\n        i get i add 1\n    end\n    return s\nend\n\
+         do grow(n) start\n    make s get \"yz\"\n    jasi (s.len() small pass n) start\n        s get s add s\n    end\n    return s.len()\nend\n\
+         do ident(x) start\n    return x\nend\n\
+         do rd_ok(r) start\n    return r.success()\nend\n\
+         do rd_code(r) start\n    return r.exit_code()\nend\n\
+         do rd_out(r) start\n    return r.stdout()\nend\n\
+         do rd_err(r) start\n    return r.stderr()\nend\n",
+    );
+    let b = indent(build);
+    let mut fields = false; // true: the script holds the four fields in array f instead of res
+    match place {
+        "top" => {
+            s.push_str(build);
+            s.push_str("make res get cmd.run()\n");
+        }
+        "fn_direct" | "read_in_fn" => {
+            let _ = write!(s, "do runit() start\n{b}    return cmd.run()\nend\nmake res get runit()\n");
+        }
+        "fn_local" => {
+            let _ = write!(s, "do runit() start\n{b}    make r get cmd.run()\n    return r\nend\nmake res get runit()\n");
+        }
+        "fn_array_lit" => {
+            let _ = write!(s, "do runit() start\n{b}    return [cmd.run()]\nend\nmake box get runit()\nmake res get box[0]\n");
+        }
+        "fn_array_push" => {
+            let _ = write!(
+                s,
+                "do runit() start\n{b}    make a get []\n    a.push(cmd.run())\n    return a\nend\nmake box get runit()\nmake res get box[0]\n"
+            );
+        }
+        "global_push" => {
+            let _ = write!(
+                s,
+                "make box get []\ndo runit() start\n{b}    box.push(cmd.run())\n    return 0\nend\nmake unused get runit()\nmake res get box[0]\n"
+            );
+        }
+        "loop_push" => {
+            let _ = write!(
+                s,
+                "make box get []\nmake i get 0\njasi (i small pass 1) start\n{b}    box.push(cmd.run())\n    i get i add 1\nend\nmake res get box[0]\n"
+            );
+        }
+        "loop_local" => {
+            let _ = write!(
+                s,
+                "make box get []\nmake i get 0\njasi (i small pass 1) start\n{b}    make r get cmd.run()\n    box.push(r)\n    i get i add 1\nend\nmake res get box[0]\n"
+            );
+        }
+        "fn_loop" => {
+            // run() inside a loop inside a function; the result is used after the loop
+            let _ = write!(
+                s,
+                "do runit() start\n    make box get []\n    make i get 0\n    jasi (i small pass 1) start\n{}        box.push(cmd.run())\n        i get i add 1\n    end\n    make junk get pad(40)\n    return box[0]\nend\nmake res get runit()\n",
+                indent(&b)
+            );
+        }
+        "nested" => {
+            let _ = write!(
+                s,
+                "do inner() start\n{b}    return cmd.run()\nend\ndo middle() start\n    return inner()\nend\ndo outer() start\n    make junk get pad(24)\n    return middle()\nend\nmake res get outer()\n"
+            );
+        }
+        "arg_ident" => {
+            let _ = write!(s, "do runit() start\n{b}    return ident(cmd.run())\nend\nmake res get runit()\n");
+        }
+        "fields_in_fn" => {
+            fields = true;
+            let _ = write!(
+                s,
+                "do runit() start\n{b}    make r get cmd.run()\n    return [r.success(), r.exit_code(), r.stdout(), r.stderr()]\nend\nmake f get runit()\n"
+            );
+        }
+        "fields_direct" => {
+            fields = true;
+            let _ = write!(
+                s,
+                "do one() start\n{b}    return cmd.run()\nend\ndo runit() start\n    make r get one()\n    make junk get pad(40)\n    return [rd_ok(r), rd_code(r), rd_out(r), rd_err(r)]\nend\nmake f get runit()\n"
+            );
+        }
+        other => {
+            let _ = writeln!(s, "shout(\"unknown placement {other}\")");
+        }
+    }
+    match churn {
+        "calls" => s.push_str("make filler get pad(64)\nmake filler3 get pad(200)\n"),
+        "loop" => s.push_str(
+            "make k get 0\nmake acc get \"\"\njasi (k small pass 24) start\n    make tmp get \"chunk {k} of filler text\"\n    acc get acc add tmp\n    k get k add 1\nend\n",
+        ),
+        "big" => {
+            let _ = writeln!(s, "make grown get grow({})", (size * 2).clamp(64, 400_000));
+        }
+        "second" => {
+            if place == "top" {
+                s.push_str(build2);
+                s.push_str("make res2 get cmd2.run()\n");
+            } else {
+                let _ = write!(s, "do again() start\n{}    return cmd2.run()\nend\nmake res2 get again()\n", indent(build2));
+            }
+        }
+        _ => {}
+    }
+    let (ok, code, out, err) = if fields {
+        ("f[0]", "f[1]", "f[2]", "f[3]")
+    } else if place == "read_in_fn" {
+        ("rd_ok(res)", "rd_code(res)", "rd_out(res)", "rd_err(res)")
+    } else {
+        ("res.success()", "res.exit_code()", "res.stdout()", "res.stderr()")
+    };
+    let _ = write!(s, "shout({ok})\nshout({code})\nshout({out})\nshout({err})\n");
+    s.push_str("make filler2 get pad(48)\n");
+    let _ = write!(s, "shout({out})\nshout({err})\n");
+    if churn == "second" {
+        s.push_str("shout(res2.stdout())\n");
+    }
+    s
+}
+
 fn one(helper: &str, dir: &str, t: &[&str]) -> String {
     let id = t[0];
     let pin = t[1] == "1";
@@ -203,28 +354,39 @@ fn one(helper: &str, dir: &str, t: &[&str]) -> String {
     let k2 = t[10].as_bytes()[0];
     let actions: Vec<&str> = if t.len() > 11 && t[11] != "-" { t[11].split(',').collect() } else { vec![] };
 
+    let place = if t.len() > 12 { t[12] } else { "top" };
+    let churn = if t.len() > 13 { t[13] } else { "none" };
+
     let pidfile = format!("{dir}/pid_{id}");
+    let pidfile2 = format!("{dir}/pid_{id}_b");
     let _ = fs::remove_file(&pidfile);
-    let mut src = String::new();
-    let _ = writeln!(src, "make cmd get command(\"{helper}\")");
+    let _ = fs::remove_file(&pidfile2);
+    // BUILD: the statements that configure `cmd`
+    let mut build = String::new();
+    let _ = writeln!(build, "make cmd get command(\"{helper}\")");
     for a in [pidfile.as_str(), t[7], t[8], t[9], t[10]].iter().chain(actions.iter()) {
-        let _ = writeln!(src, "cmd.arg(\"{a}\")");
+        let _ = writeln!(build, "cmd.arg(\"{a}\")");
     }
-    let _ = writeln!(src, "cmd.stdin_null()");
+    let _ = writeln!(build, "cmd.stdin_null()");
     for (name, p) in [("stdout", p1), ("stderr", p2)] {
         let m = match p {
             "c" => "capture",
             "n" => "null",
             _ => "inherit",
         };
-        let _ = writeln!(src, "cmd.{name}_{m}()");
+        let _ = writeln!(build, "cmd.{name}_{m}()");
     }
-    let _ = writeln!(src, "cmd.timeout_ms({timeout})");
-    let _ = writeln!(src, "make res get cmd.run()");
-    let _ = writeln!(src, "shout(res.success())");
-    let _ = writeln!(src, "shout(res.exit_code())");
-    let _ = writeln!(src, "shout(res.stdout())");
-    let _ = writeln!(src, "shout(res.stderr())");
+    let _ = writeln!(build, "cmd.timeout_ms({timeout})");
+    // a second, small child (used by churn = second): 7 bytes on stdout, 5 on stderr, both captured
+    let mut build2 = String::new();
+    let _ = writeln!(build2, "make cmd2 get command(\"{helper}\")");
+    for a in [pidfile2.as_str(), "7", "a", "5", "a", "o7", "e5", "x0"] {
+        let _ = writeln!(build2, "cmd2.arg(\"{a}\")");
+    }
+    let _ = writeln!(build2, "cmd2.stdin_null()\ncmd2.stdout_capture()\ncmd2.stderr_capture()\ncmd2.timeout_ms(6000)");
+
+    let src = build_script(&build, &build2, place, churn, n1.max(n2));
+    let want_outputs = if churn == "second" { 7 } else { 6 };
 
     let mut caps = ProcessCaps::defaults();
     caps.max_capture_bytes_per_stream = cap;
@@ -236,7 +398,9 @@ fn one(helper: &str, dir: &str, t: &[&str]) -> String {
     let ms = t0.elapsed().as_millis();
     let pid = pid_state(&pidfile);
     let _ = fs::remove_file(&pidfile);
+    let pid2_early = pid_state(&pidfile2);
 
+    let _ = fs::remove_file(&pidfile2);
     let Ok(obs) = res else {
         return format!("{id} panic pid={pid} t={ms}");
     };
@@ -265,7 +429,7 @@ fn one(helper: &str, dir: &str, t: &[&str]) -> String {
         let extra = if kind == "other" || kind == "spawn" { format!(" msg=[{msg}: {labels}]") } else { String::new() };
         return format!("{id} err kind={kind} stream={stream} outputs={} pid={pid} t={ms}{extra}", obs.outputs.len());
     }
-    if obs.outputs.len() != 4 {
+    if obs.outputs.len() != want_outputs {
         return format!("{id} malformed outputs={} pid={pid} t={ms}", obs.outputs.len());
     }
     let success = match obs.outputs[0] {
@@ -279,8 +443,24 @@ fn one(helper: &str, dir: &str, t: &[&str]) -> String {
     };
     let e1 = pattern(1, n1, k1);
     let e2 = pattern(2, n2, k2);
+    // the streams are read a second time after more allocation: both reads must agree
+    let reread = if desc(&e1, &obs.outputs[2]) == desc(&e1, &obs.outputs[4])
+        && desc(&e2, &obs.outputs[3]) == desc(&e2, &obs.outputs[5])
+        && same_bytes(&obs.outputs[2], &obs.outputs[4])
+        && same_bytes(&obs.outputs[3], &obs.outputs[5])
+    {
+        "same"
+    } else {
+        "diff"
+    };
+    let aux = if churn == "second" {
+        let ok = desc(&pattern(1, 7, b'a'), &obs.outputs[6]) == "full" && !pid2_early.starts_with("alive");
+        if ok { " aux=ok" } else { " aux=bad" }
+    } else {
+        ""
+    };
     format!(
-        "{id} ok code={code} out={} err={} success={success} pid={pid} t={ms}",
+        "{id} ok code={code} out={} err={} success={success} reread={reread}{aux} pid={pid} t={ms}",
         desc(&e1, &obs.outputs[2]),
         desc(&e2, &obs.outputs[3])
     )
@@ -290,7 +470,9 @@ pub fn run(input: &str, output: &str) -> ExitCode {
     let helper = env::var("C16_HELPER").expect("C16_HELPER");
     let dir = env::var("C16_DIR").expect("C16_DIR");
     let text = fs::read_to_string(input).expect("input");
-    let mut out = String::new();
+    // one line per case, written as soon as the case is done: if the runtime takes the whole
+    // process down (SIGSEGV / abort on a dangling string), the driver sees which case it was
+    let mut out = fs::File::create(output).expect("output");
     // keep panics quiet: they are reported per case
     panic::set_hook(Box::new(|_| {}));
     for line in text.lines() {
@@ -298,9 +480,9 @@ pub fn run(input: &str, output: &str) -> ExitCode {
         if t.len() < 11 {
             continue;
         }
-        out.push_str(&one(&helper, &dir, &t));
-        out.push('\n');
+        let l = one(&helper, &dir, &t);
+        let _ = writeln!(out, "{l}");
+        let _ = out.flush();
     }
-    fs::write(output, out).expect("output");
     ExitCode::SUCCESS
 }
